@@ -13,7 +13,8 @@ fn v1_file<const N: usize>(ntrans: u8, ntypes: u8) -> [u8; N] {
     b
 }
 
-/// one transition, one type: 44 + 4 + 1 + 6 + 4 = 59 bytes
+/// one transition, one type: 44 + 4 + 1 + 6 + 4 = 59 bytes.
+/// C19 side: never a panic, only validated data comes back, and a transition whose type index has no type is refused.
 #[kani::proof]
 #[kani::unwind(26)]
 fn tzif_v1_1_1() {
@@ -21,25 +22,46 @@ fn tzif_v1_1_1() {
     match TimeZone::from_tzif(&bytes) {
         Ok(tz) => {
             assert!(tz.validate().is_ok());
-            // decoded exactly what the bytes say
-            assert!(tz.transitions.len() == 1 && tz.local_time_types.len() == 1);
-            assert!(tz.transitions[0].unix_leap_time == i32::from_be_bytes([bytes[44], bytes[45], bytes[46], bytes[47]]) as i64);
-            assert!(tz.transitions[0].local_time_type_index == bytes[48] as usize);
-            assert!(tz.local_time_types[0].utoff == i32::from_be_bytes([bytes[49], bytes[50], bytes[51], bytes[52]]));
             assert!(bytes[48] == 0);
         }
         Err(_) => assert!(bytes[48] != 0),
     }
 }
+/// C18 side (decode): what comes back for a well-formed file is exactly what the bytes say, and a well-formed file is accepted.
+#[kani::proof]
+#[kani::unwind(26)]
+fn tzif_v1_1_1_decode() {
+    let bytes = v1_file::<59>(1, 1);
+    kani::assume(bytes[48] == 0); // well-formed: the only type index refers to the only type
+    match TimeZone::from_tzif(&bytes) {
+        Ok(tz) => {
+            assert!(tz.transitions.len() == 1 && tz.local_time_types.len() == 1);
+            assert!(tz.transitions[0].unix_leap_time == i32::from_be_bytes([bytes[44], bytes[45], bytes[46], bytes[47]]) as i64);
+            assert!(tz.transitions[0].local_time_type_index == 0);
+            assert!(tz.local_time_types[0].utoff == i32::from_be_bytes([bytes[49], bytes[50], bytes[51], bytes[52]]));
+            assert!(tz.extra_rule.is_none());
+        }
+        Err(_) => assert!(false),
+    }
+}
 
-/// no transition, one type: 44 + 6 + 4 = 54 bytes
+/// no transition, one type: 44 + 6 + 4 = 54 bytes (C19 side)
 #[kani::proof]
 #[kani::unwind(26)]
 fn tzif_v1_0_1() {
     let bytes = v1_file::<54>(0, 1);
     match TimeZone::from_tzif(&bytes) {
+        Ok(tz) => assert!(tz.validate().is_ok()),
+        Err(_) => assert!(false),
+    }
+}
+/// C18 side (decode)
+#[kani::proof]
+#[kani::unwind(26)]
+fn tzif_v1_0_1_decode() {
+    let bytes = v1_file::<54>(0, 1);
+    match TimeZone::from_tzif(&bytes) {
         Ok(tz) => {
-            assert!(tz.validate().is_ok());
             assert!(tz.transitions.len() == 0 && tz.local_time_types.len() == 1);
             assert!(tz.local_time_types[0].utoff == i32::from_be_bytes([bytes[44], bytes[45], bytes[46], bytes[47]]));
             assert!(tz.extra_rule.is_none());
